@@ -412,6 +412,7 @@ theorem resP_complete (c : Ctx) (fuel : Nat) (ih : ResP c fuel) :
           -- a leaf type has no object positions
           intro ot o p' ho
           cases ho with
+          | thunk => simp [GoVal.isFunc] at hfun
           | object _ _ hobj => rw [isLeaf_not_object hleaf] at hobj; cases hobj
           | abstract _ _ habs => rw [isLeaf_not_abstract hleaf] at habs; cases habs
         · split at h
@@ -430,6 +431,7 @@ theorem resP_complete (c : Ctx) (fuel : Nat) (ih : ResP c fuel) :
                   refine hobject n ot fs _ hg ?_
                   intro ot' o p' ho
                   cases ho with
+                  | thunk => simp [GoVal.isFunc] at hfun
                   | object _ _ hobj => rw [isAbstract_not_object habs] at hobj; cases hobj
                   | abstract _ _ _ hrt => rw [hot] at hrt; cases hrt; exact ⟨rfl, rfl, rfl⟩
                 | fail => simp at h
@@ -447,6 +449,7 @@ theorem resP_complete (c : Ctx) (fuel : Nat) (ih : ResP c fuel) :
                   refine hobject n n fs _ hg ?_
                   intro ot' o p' ho
                   cases ho with
+                  | thunk => simp [GoVal.isFunc] at hfun
                   | object => exact ⟨rfl, rfl, rfl⟩
                   | abstract _ _ habs => exact absurd habs hnabs
                 | fail => simp at h
